@@ -8,6 +8,13 @@ import DFV.Lemmas.C18AutoN
 import DFV.Lemmas.C18QuarterObj
 import DFV.Lemmas.C18Align
 import DFV.Lemmas.C18LatComp
+import DFV.Lemmas.C18Rat
+import DFV.Lemmas.C18Iff
+import DFV.Lemmas.C18Clamp
+import DFV.Lemmas.C18Scale
+import DFV.Lemmas.C18Examples2
+import DFV.Lemmas.C18More
+import DFV.Lemmas.C18Chain
 /-!
 # C18 — arbitrary rotations rotate the vectors and resample the positions consistently
 
@@ -1093,5 +1100,539 @@ theorem roundCbrt_cube (k : Nat) : roundCbrt (cube (k : Rat)) = k := by
 example : roundCbrt (cube 4) = 4 := by
   have := roundCbrt_cube 4
   simpa using this
+
+/-! # second extension round -/
+
+/-! ## rational rotations that are not quarter turns -/
+
+/-- **plane rotations with rational cosine and sine** (`cos = 3/5, sin = 4/5`, …): for every
+coordinate plane `(p, q)` and every rational point `(c, s)` of the unit circle `Rcs p q c s` is a
+proper rotation; two of them in the same plane multiply by the angle-addition formulas (so they
+commute); the opposite angle is the transpose; angle zero is the identity; and swapping the roles
+of the two axes reverses the angle. -/
+theorem plane_rotation_laws (p q : Nat) (hp : p < 3) (hq : q < 3) (hpq : p ≠ q) (c s c' s' : Rat)
+    (h : c * c + s * s = 1) :
+    (Rcs p q c s).IsRot ∧ (Rcs p q c s).mul (Rcs p q c' s') = Rcs p q (c * c' - s * s') (s * c' + c * s') ∧
+    Rcs p q c (-s) = (Rcs p q c s).tr ∧ Rcs p q 1 0 = M3.one ∧ Rcs q p c s = Rcs p q c (-s) :=
+  ⟨Rcs_isRot p q hp hq hpq c s h, Rcs_mul p q hp hq hpq c s c' s', Rcs_tr p q hp hq hpq c s, Rcs_one p q hp hq hpq,
+   Rcs_swap p q hp hq hpq c s⟩
+
+example : (3/5 : Rat) * (3/5) + (4/5) * (4/5) = 1 := by norm_num
+
+/-- **all rational angles are Pythagorean.** For rationals `m, n` (not both zero) `pythC m n`,
+`pythS m n` — `(m² − n², 2mn)/(m² + n²)` — is a rational point of the unit circle, every rational
+point except `(−1, 0)` arises so, and the rotation about coordinate axis `a` by that angle is the
+rotation of the half-angle quaternion `m + n·e_a` (the form in which the correspondence run hands
+these rotations to the model). -/
+theorem pythagorean_angles (m n : Rat) (h : m * m + n * n ≠ 0) :
+    pythC m n * pythC m n + pythS m n * pythS m n = 1 ∧
+    (∀ a, a < 3 → RaxisCS a (pythC m n) (pythS m n)
+      = M3.ofQuat m (if a = 0 then n else 0) (if a = 1 then n else 0) (if a = 2 then n else 0)) ∧
+    (∀ c s : Rat, c * c + s * s = 1 → c ≠ -1 → c = pythC (1 + c) s ∧ s = pythS (1 + c) s) :=
+  ⟨pyth_unit m n h, fun a ha => RaxisCS_eq_ofQuat a ha m n h, fun c s hcs hc => pyth_complete c s hcs hc⟩
+
+/-- `(m, n) = (2, 1)`: the 3-4-5 angle; `(3, 2)`: the 5-12-13 angle -/
+example : pythC 2 1 = 3/5 ∧ pythS 2 1 = 4/5 ∧ pythC 3 2 = 5/13 ∧ pythS 3 2 = 12/13 := by
+  unfold pythC pythS; norm_num
+
+/-- **Euler sequences of rational angles** (`from_euler(seq, angles)` with every angle given by a
+rational cosine and sine, any length, any axes — quarter turns are the special case `eulerQ`):
+always a proper rotation; an intrinsic (upper-case) sequence is the reversed extrinsic one; the
+extrinsic sequence is the ordered product — later rotations on the left — that a history of
+single-axis `rotate` calls accumulates. -/
+theorem euler_rational_sequences (intr : Bool) (seq : List (Nat × Rat × Rat)) (h : UnitCS seq) (qs : List (Nat × Int)) :
+    (eulerCS intr seq).IsRot ∧ eulerCS true seq = eulerCS false seq.reverse ∧
+    eulerCS false seq = prodL (seq.map fun x => RaxisCS x.1 x.2.1 x.2.2) ∧
+    eulerQ intr qs = eulerCS intr (qs.map fun x => (x.1, T.cosq x.2, T.sinq x.2)) :=
+  ⟨eulerCS_isRot intr seq h, eulerCS_intrinsic_reverse seq, eulerCS_extrinsic_prodL seq, eulerQ_eq_CS intr qs⟩
+
+/-- `from_euler("zx", [atan2(4, 3), atan2(12, 5)])` and its intrinsic twin differ -/
+example : UnitCS [(2, 3/5, 4/5), (0, 5/13, 12/13)] ∧
+    eulerCS false [(2, 3/5, 4/5), (0, 5/13, 12/13)] ≠ eulerCS true [(2, 3/5, 4/5), (0, 5/13, 12/13)] := by
+  unfold UnitCS; decide +kernel
+
+/-- **rotation vectors with rational axis and rational angle** (`from_rotvec(θ·u)`, `u` a rational
+unit vector such as `(1, 2, 2)/3`, `cos θ` and `sin θ` rational): Rodrigues' matrix is a proper
+rotation that fixes `u`, has trace `1 + 2 cos θ`, is transposed by the opposite angle, unchanged by
+reversing axis and angle together, adds angles about the same axis, and about a coordinate axis is
+the plane rotation `RaxisCS`. -/
+theorem axis_angle_spec (u : V3) (hu : u.dot u = 1) (c s c' s' : Rat) (h : c * c + s * s = 1) :
+    (ofAxisAngle u c s).IsRot ∧ (ofAxisAngle u c s).apply u = u ∧
+    (ofAxisAngle u c s).e 0 0 + (ofAxisAngle u c s).e 1 1 + (ofAxisAngle u c s).e 2 2 = 1 + 2 * c ∧
+    ofAxisAngle u c (-s) = (ofAxisAngle u c s).tr ∧ ofAxisAngle ⟨-u.x, -u.y, -u.z⟩ c (-s) = ofAxisAngle u c s ∧
+    (ofAxisAngle u c s).mul (ofAxisAngle u c' s') = ofAxisAngle u (c * c' - s * s') (s * c' + c * s') ∧
+    (∀ a, a < 3 → ofAxisAngle ⟨if a = 0 then 1 else 0, if a = 1 then 1 else 0, if a = 2 then 1 else 0⟩ c s = RaxisCS a c s) :=
+  ⟨ofAxisAngle_isRot u c s hu h, ofAxisAngle_axis u c s hu, ofAxisAngle_trace u c s hu, ofAxisAngle_neg u c s,
+   ofAxisAngle_flip u c s, ofAxisAngle_mul u hu c s c' s', fun a ha => ofAxisAngle_coord a ha c s⟩
+
+example : (⟨1/3, 2/3, 2/3⟩ : V3).dot ⟨1/3, 2/3, 2/3⟩ = 1 ∧ (ofAxisAngle ⟨1/3, 2/3, 2/3⟩ (3/5) (4/5)).IsRot := by
+  decide +kernel
+
+/-- **rotation vector = quaternion.** The rotation about the rational unit axis `u` by the
+Pythagorean angle with half-angle tangent `n/m` (what `from_rotvec(θ·u)` builds) is the rotation
+of the quaternion `m + n·u` (what `from_quat` builds): the two families the correspondence run
+feeds to the real code meet in the same rational matrices. -/
+theorem axis_angle_is_quaternion (u : V3) (hu : u.dot u = 1) (m n : Rat) (h : m * m + n * n ≠ 0) :
+    ofAxisAngle u (pythC m n) (pythS m n) = M3.ofQuat m (n * u.x) (n * u.y) (n * u.z) :=
+  ofAxisAngle_eq_ofQuat u hu m n h
+
+/-! ## the resampling statement from hypotheses on the inputs only -/
+
+/-- **every rational rotation resamples as the property says — from hypotheses on the inputs
+alone.** For a well-formed field with a component order, EVERY proper rotation with rational entries
+(3-4-5 rotations, their products in different planes, any rational quaternion …) and no `n` or
+three positive counts: `rotate` succeeds; the new region is the bounding box; the counts are the
+requested / automatic ones (all ≥ 1); a cell whose back-rotated centre is at least one cell inside
+the original region holds `R` applied (through the component permutation) to the eight-cell
+multilinear interpolant of the original there; a cell whose back-rotated centre is outside the
+region by more than the `1e-9`-cell padding holds zero. -/
+theorem rational_rotation_resamples (f : Fld) (hf : WF f) (ord : List Nat) (ho : ordFor f = .ok ord) (R : M3) (hR : R.IsRot)
+    (n? : Option (List Nat)) (hn : ∀ n, n? = some n → n.length = 3 ∧ ∀ k ∈ n, k ≠ 0) :
+    ∃ g, rotateOnce f R n? = .ok g ∧ g.mesh.region = boxRegion f R ∧
+      g.mesh.n = n?.getD (autoN f R (boxRegion f R)) ∧ g.mesh.n.length = 3 ∧ (∀ k ∈ g.mesh.n, k ≠ 0) ∧
+      ∀ idx,
+        ((∀ a, a < 3 →
+            f.mesh.region.lo a + f.mesh.cellAt a ≤ (backPos f R g.mesh idx).get a + centreAt f.mesh a ∧
+            (backPos f R g.mesh idx).get a + centreAt f.mesh a ≤ f.mesh.region.hi a - f.mesh.cellAt a) →
+          ∃ k0 k1 k2, Between f.mesh 0 k0 (backPos f R g.mesh idx).x ∧ Between f.mesh 1 k1 (backPos f R g.mesh idx).y ∧
+            Between f.mesh 2 k2 (backPos f R g.mesh idx).z ∧
+            g.data.get idx = rotVal f.nvdim R ord (tab f.nvdim fun c =>
+              cellInterp f c k0 k1 k2
+                (((backPos f R g.mesh idx).x - centreRel f.mesh 0 k0) / f.mesh.cellAt 0)
+                (((backPos f R g.mesh idx).y - centreRel f.mesh 1 k1) / f.mesh.cellAt 1)
+                (((backPos f R g.mesh idx).z - centreRel f.mesh 2 k2) / f.mesh.cellAt 2))) ∧
+        ((∃ a, a < 3 ∧
+            ((backPos f R g.mesh idx).get a + centreAt f.mesh a < f.mesh.region.lo a - f.mesh.cellAt a * tolI ∨
+             f.mesh.region.hi a + f.mesh.cellAt a * tolI < (backPos f R g.mesh idx).get a + centreAt f.mesh a)) →
+          g.data.get idx = tab f.nvdim fun _ => 0) := by
+  have hacc := rotateOnce_accepts f hf.1 hR ord ho n? hn
+  have hreg := newRegion_accepts f hf.1 hR
+  obtain ⟨al, ap⟩ := autoN_pos f hf.1 hR _ hreg
+  refine ⟨_, hacc, rfl, rfl, ?_, ?_, ?_⟩
+  · show (n?.getD (autoN f R (boxRegion f R))).length = 3
+    cases n? with
+    | none => exact al
+    | some n => exact (hn n rfl).1
+  · show ∀ k ∈ n?.getD (autoN f R (boxRegion f R)), k ≠ 0
+    cases n? with
+    | none => exact ap
+    | some n => exact (hn n rfl).2
+  · intro idx
+    constructor
+    · intro hin
+      obtain ⟨ord', k0, k1, k2, ho', b0, b1, b2, hv⟩ := rot_inside_value f hf R n? _ hacc idx hin
+      rw [ho] at ho'
+      injection ho' with ho'
+      subst ho'
+      exact ⟨k0, k1, k2, b0, b1, b2, hv⟩
+    · rintro ⟨a, ha, hout⟩
+      exact rot_outside_zero f R n? _ hacc idx a ha hout
+
+/-- non-vacuity: a product of a 5-12-13 rotation about x and a 3-4-5 rotation about z (not a
+lattice rotation, not about a coordinate axis) on the 4×4×3 example fields -/
+example : WF exV ∧ ordFor exV = .ok [1, 0, 2] ∧ exPyth.IsRot := ⟨exWFV, exOrdV, by decide +kernel⟩
+
+/-! ## every cell: the complete case analysis, edge band included -/
+
+/-- the bounds test of the interpolator in absolute coordinates: within the region enlarged by
+`1e-9` cell on every side -/
+theorem inPad_iff_padded_box (f : Fld) (p : V3) :
+    InPad f p ↔ ∀ a, a < 3 →
+      f.mesh.region.lo a - f.mesh.cellAt a * tolI ≤ p.get a + centreAt f.mesh a ∧
+      p.get a + centreAt f.mesh a ≤ f.mesh.region.hi a + f.mesh.cellAt a * tolI := by
+  unfold InPad
+  constructor
+  · intro h a ha
+    have := h a ha
+    rw [gridNode_zero, gridNode_last] at this
+    constructor <;> linarith [this.1, this.2]
+  · intro h a ha
+    have := h a ha
+    rw [gridNode_zero, gridNode_last]
+    constructor <;> linarith [this.1, this.2]
+
+/-- **the value of EVERY target cell.** Either the back-rotated centre fails the bounds test
+(outside the region enlarged by `1e-9` cell) and the cell holds zero in every component, or it
+passes and the cell holds `R` applied to the eight-cell multilinear formula evaluated at the
+back-rotated centre CLAMPED, per axis, to the box spanned by the first and last cell centres:
+between a face and the nearest cell centre (and in the `1e-9`-cell sliver outside the face) the
+boundary cell's value is continued unchanged (`np.pad(mode="edge")`), on an axis with a single
+cell the result does not depend on that coordinate at all. No other case exists. -/
+theorem rot_value_complete (f : Fld) (hf : WF f) (R : M3) (n? : Option (List Nat)) (g : Fld)
+    (h : rotateOnce f R n? = .ok g) (idx : List Nat) :
+    (¬ InPad f (backPos f R g.mesh idx) → g.data.get idx = tab f.nvdim fun _ => 0) ∧
+    (InPad f (backPos f R g.mesh idx) → ∃ ord k0 k1 k2, ordFor f = .ok ord ∧
+      Br f.mesh 0 k0 (clampV f.mesh (backPos f R g.mesh idx)).x ∧ Br f.mesh 1 k1 (clampV f.mesh (backPos f R g.mesh idx)).y ∧
+      Br f.mesh 2 k2 (clampV f.mesh (backPos f R g.mesh idx)).z ∧
+      g.data.get idx = rotVal f.nvdim R ord (tab f.nvdim fun c =>
+        cellInterp f c k0 k1 k2
+          (((clampV f.mesh (backPos f R g.mesh idx)).x - centreRel f.mesh 0 k0) / f.mesh.cellAt 0)
+          (((clampV f.mesh (backPos f R g.mesh idx)).y - centreRel f.mesh 1 k1) / f.mesh.cellAt 1)
+          (((clampV f.mesh (backPos f R g.mesh idx)).z - centreRel f.mesh 2 k2) / f.mesh.cellAt 2))) := by
+  constructor
+  · intro hout
+    obtain ⟨reg, nm, ord, _, _, _, hg⟩ := rotateOnce_ok_inv f R n? g h
+    subst hg
+    rw [rotated_data]
+    exact valuesAt_outside f R ord _ hout
+  · intro hin
+    obtain ⟨ord, ho, hv⟩ := rot_general f hf R n? g h
+    have r0 := clampAx_range f.mesh 0 (hf.1 0 (by omega)) (backPos f R g.mesh idx).x
+    have r1 := clampAx_range f.mesh 1 (hf.1 1 (by omega)) (backPos f R g.mesh idx).y
+    have r2 := clampAx_range f.mesh 2 (hf.1 2 (by omega)) (backPos f R g.mesh idx).z
+    obtain ⟨k0, b0⟩ := br_exists f.mesh 0 (hf.1 0 (by omega)) _ r0.1 r0.2
+    obtain ⟨k1, b1⟩ := br_exists f.mesh 1 (hf.1 1 (by omega)) _ r1.1 r1.2
+    obtain ⟨k2, b2⟩ := br_exists f.mesh 2 (hf.1 2 (by omega)) _ r2.1 r2.2
+    refine ⟨ord, k0, k1, k2, ho, b0, b1, b2, ?_⟩
+    rw [hv idx, ← origAt_clamp f hf.1 _ hin]
+    congr 1
+    apply eq_tab_of_getD _ _ _ 0 (origAt_length f _)
+    intro c hc
+    exact origAt_br f hf.1 (clampV f.mesh (backPos f R g.mesh idx)) k0 k1 k2 b0 b1 b2 c hc
+
+/-- instance: the target cell `[3, 1, 1]` of the example looks back into the band between the
+face `y = 0` and the first cell centres (it passes the bounds test but is less than half a cell
+inside); its clamped position is in the brackets of cells `1, 0, 1` -/
+example : InPad exF (backPos exF exR exNM [3, 1, 1]) ∧ (backPos exF exR exNM [3, 1, 1]).y < centreRel exF.mesh 1 0 ∧
+    Br exF.mesh 0 1 (clampV exF.mesh (backPos exF exR exNM [3, 1, 1])).x ∧
+    Br exF.mesh 1 0 (clampV exF.mesh (backPos exF exR exNM [3, 1, 1])).y ∧
+    Br exF.mesh 2 1 (clampV exF.mesh (backPos exF exR exNM [3, 1, 1])).z := by
+  unfold InPad Br; decide +kernel
+
+/-! ## acceptance and refusal as equivalences -/
+
+/-- **`rotate` succeeds exactly when …** For a field on a well-formed 3-d mesh and a proper
+rotation: the call succeeds if and only if `n`, when given, has exactly three entries none of
+which is zero, and the field is scalar or every spatial axis has a component mapped to it — no
+other input (values, cell sizes, rotation) can make it fail. -/
+theorem rotate_ok_iff (f : Fld) (hm : Mesh3 f.mesh) (R : M3) (hR : R.IsRot) (n? : Option (List Nat)) :
+    (∃ g, rotateOnce f R n? = .ok g) ↔
+      ((∀ n, n? = some n → n.length = 3 ∧ ∀ k ∈ n, k ≠ 0) ∧ (f.nvdim = 1 ∨ ∀ a, a < 3 → ∃ k, ordAt f a = some k)) :=
+  rotateOnce_ok_iff f hm hR n?
+
+/-- **… and so after any history.** After ANY history of proper rotations, clears and refused
+calls a further proper rotation is accepted under exactly the same condition; it is refused
+exactly when `n` is malformed or the vector field has an axis without a component — and then the
+current field is kept while the rotation stays accumulated (`bad_n_refused`,
+`unmapped_axis_refused`). -/
+theorem rotate_accepted_iff (f : Fld) (hm : Mesh3 f.mesh) (s0 : Rotator) (h0 : init? f = .ok s0) (ops : List Op)
+    (hops : ∀ Q n, Op.rotate Q n ∈ ops → Q.IsRot) (Q : M3) (hQ : Q.IsRot) (n? : Option (List Nat)) :
+    (step (run s0 ops) (.rotate Q n?)).2 = none ↔
+      ((∀ n, n? = some n → n.length = 3 ∧ ∀ k ∈ n, k ≠ 0) ∧ (f.nvdim = 1 ∨ ∀ a, a < 3 → ∃ k, ordAt f a = some k)) := by
+  obtain ⟨hr, hor⟩ := accumulated_rotation f s0 h0 ops
+  have hs0 := init?_ok_inv f s0 h0
+  have hrot : (run s0 ops).rot.IsRot := accumulated_is_rotation s0 (by rw [hs0]; exact M3.isRot_one) ops hops
+  have hR : (Q.mul (run s0 ops).rot).IsRot := hQ.mul hrot
+  rw [← rotate_ok_iff f hm _ hR n?]
+  constructor
+  · intro hnone
+    cases hres : rotateOnce (run s0 ops).orig (Q.mul (run s0 ops).rot) n? with
+    | ok g => exact ⟨g, by rw [← hor]; exact hres⟩
+    | error e => rw [step_rotate_err _ Q n? e hres] at hnone; cases hnone
+  · rintro ⟨g, hg⟩
+    rw [step_rotate_ok _ Q n? g (by rw [hor]; exact hg)]
+
+/-- **a complete component-to-axis mapping, exactly.** The component order of `rotate` exists
+if and only if the field is scalar or every spatial axis has a component; and when every mapped
+label is a component label this says: every axis name is the image of some label (for an axis
+that several labels are mapped to, the LAST one counts — `_r_dim_mapping`). -/
+theorem mapping_complete_iff (f : Fld) :
+    ((∃ ord, ordFor f = .ok ord) ↔ (f.nvdim = 1 ∨ ∀ a, a < 3 → ∃ k, ordAt f a = some k)) ∧
+    ((∀ p ∈ f.vmap, ∃ k, f.vdimIndex p.1 = some k) → ∀ a,
+      ((∃ k, ordAt f a = some k) ↔ ∃ p ∈ f.vmap, p.2 = f.mesh.region.dims.getD a "")) :=
+  ⟨ordFor_ok_iff f, fun hk a => ordAt_some_iff f hk a⟩
+
+example : (∀ p ∈ exV.vmap, (exV.vdimIndex p.1).isSome = true) ∧ ∀ a, a < 3 → (ordAt exV a).isSome = true := by
+  decide +kernel
+
+/-- **periodic boundary conditions, subregions, the validity mask and the unit have no effect.**
+The constructor's decision and every result of `rotate` are the same whatever the original's
+`bc`, subregions, mask and unit are (the code only warns about a non-empty `bc`); the rotated
+field has no boundary conditions, no subregions, no unit, and every cell valid. -/
+theorem bc_mask_unit_no_effect (f : Fld) (R : M3) (n? : Option (List Nat)) (bc : String) (subs : List (String × Region))
+    (valid : NDA Bool) (unit : Option String) :
+    rotateOnce { f with mesh := { f.mesh with bc := bc, subs := subs }, valid := valid, unit := unit } R n? = rotateOnce f R n? ∧
+    ((∃ s, init? { f with mesh := { f.mesh with bc := bc, subs := subs }, valid := valid, unit := unit } = .ok s) ↔
+      ∃ s, init? f = .ok s) ∧
+    (∀ g, rotateOnce f R n? = .ok g →
+      g.mesh.bc = "" ∧ g.mesh.subs = [] ∧ g.unit = none ∧ g.valid.shape = g.mesh.n ∧ g.valid.get = fun _ => true) := by
+  refine ⟨rotateOnce_ignores f R n? bc subs valid unit, init_ignores f bc subs valid unit, ?_⟩
+  intro g h
+  obtain ⟨reg, nm, ord, _, hmk, _, hg⟩ := rotateOnce_ok_inv f R n? g h
+  subst hg
+  unfold Mesh.mkN? at hmk
+  split at hmk
+  · cases hmk
+  · split at hmk
+    · cases hmk
+    · split at hmk
+      · cases hmk
+      · injection hmk with hmk
+        subst hmk
+        exact ⟨toLower_empty', rfl, rfl, rfl, rfl⟩
+
+/-- non-vacuity: the vector example with periodic `bc = "xy"`, a subregion, a mask with holes and
+a unit is accepted by the constructor and rotated exactly as the plain one -/
+example : isOk (init? exP) = true ∧ exP.mesh.bc = "xy" ∧ exP.valid.get [1, 2, 0] = false ∧
+    rotateOnce exP exPyth none = rotateOnce exV exPyth none :=
+  ⟨by decide +kernel, rfl, rfl, (bc_mask_unit_no_effect exV exPyth none "xy" [("a", exReg)] _ (some "A/m")).1⟩
+
+/-! ## independence of the unit of length, of the origin and of the unit of the value -/
+
+/-- **homogeneity of `rotate`.** Take any field on a 3-d mesh, measure its coordinates in another
+unit of length (`× s`, `s > 0`), move the origin (`+ d`) and measure its values in another unit
+(`× t`): for EVERY matrix and every `n` the call is refused in exactly the same cases, and when
+it succeeds the result is the old result in the new units — region corners `s·x + d`, the same
+cell counts (the automatic ones included), every stored component times `t`, labels and mapping
+unchanged. Nothing in `rotate` depends on an absolute length, position or magnitude (the padding
+of the interpolation grid is `1e-9` of a CELL). -/
+theorem rot_homogeneous (s : Rat) (hs : 0 < s) (d : Nat → Rat) (t : Rat) (f : Fld) (h3 : Is3d f.mesh.region) (R : M3)
+    (n? : Option (List Nat)) :
+    rotateOnce (affFld s d t f) R n? = (rotateOnce f R n?).map (affFld s d t) :=
+  rotateOnce_aff s d hs t f h3 R n?
+
+/-- the same, cell by cell: the rescaled input is accepted when the original is, with the same
+cell counts, corners `s·x + d` and `t` times every stored component -/
+theorem rot_homogeneous_cells (s : Rat) (hs : 0 < s) (d : Nat → Rat) (t : Rat) (f : Fld) (h3 : Is3d f.mesh.region) (R : M3)
+    (n? : Option (List Nat)) (g : Fld) (h : rotateOnce f R n? = .ok g) :
+    ∃ g', rotateOnce (affFld s d t f) R n? = .ok g' ∧ g'.mesh.n = g.mesh.n ∧
+      (∀ a, a < 3 → g'.mesh.region.lo a = s * g.mesh.region.lo a + d a ∧ g'.mesh.region.hi a = s * g.mesh.region.hi a + d a) ∧
+      (∀ idx c, (g'.data.get idx).getD c 0 = t * (g.data.get idx).getD c 0) ∧
+      g'.nvdim = g.nvdim ∧ g'.vdims = g.vdims ∧ g'.vmap = g.vmap := by
+  refine ⟨affFld s d t g, by rw [rot_homogeneous s hs d t f h3 R n?, h]; rfl, rfl, ?_, ?_, rfl, rfl, rfl⟩
+  · intro a ha
+    obtain ⟨reg, nm, ord, hreg, hmk, _, hg⟩ := rotateOnce_ok_inv f R n? g h
+    have h3g : Is3d g.mesh.region := by
+      subst hg
+      show Is3d nm.region
+      rw [(mkN?_ok_inv _ _ nm hmk).1]
+      obtain ⟨e1, e2, _⟩ := newRegion_ok_inv f R reg hreg
+      unfold Is3d; rw [e1, e2]; simp
+    exact ⟨affReg_lo s d _ h3g.1 a ha, affReg_hi s d _ h3g.2 a ha⟩
+  · intro idx c
+    exact getD_map_mul t _ c
+
+/-- **homogeneity of whole histories.** The rotator of the rescaled field is accepted exactly when
+the original's is, and after ANY history of calls (rotations with any `n`, clears, refused calls)
+its state is the rescaled state of the original's rotator: same accumulated matrix, current field
+in the new units. -/
+theorem history_homogeneous (s : Rat) (hs : 0 < s) (d : Nat → Rat) (t : Rat) (f : Fld) (h3 : Is3d f.mesh.region)
+    (s0 : Rotator) (h0 : init? f = .ok s0) (ops : List Op) :
+    init? (affFld s d t f) = .ok (affRot s d t s0) ∧
+    run (affRot s d t s0) ops = affRot s d t (run s0 ops) ∧
+    (run (affRot s d t s0) ops).rot = (run s0 ops).rot ∧ (run (affRot s d t s0) ops).cur = affFld s d t (run s0 ops).cur := by
+  have hs0 := init?_ok_inv f s0 h0
+  have hrun := run_aff s d hs t s0 (by rw [hs0]; exact h3) ops
+  refine ⟨by rw [init_aff, h0]; rfl, hrun, by rw [hrun]; rfl, by rw [hrun]; rfl⟩
+
+/-- non-vacuity: nanometre-sized copy of the example (`s = 1e-9`), moved far from the origin,
+values in units of `8e5` -/
+example : (0 : Rat) < 1/1000000000 ∧ Is3d exF.mesh.region ∧ Is3d exV.mesh.region ∧ isOk (rotateOnce exNano exPyth none) = true := by
+  unfold Is3d; decide +kernel
+
+/-! ## histories with the same ordered product -/
+
+/-- **only the ordered product matters.** Two histories (of the same rotator) whose last calls
+bring the accumulated products to the same matrix — e.g. one `from_euler` call and the sequence of
+single-axis calls, four quarter turns and none, `rotate Q₁; rotate Q₂` and `rotate (Q₂Q₁)` — and
+use the same `n` in the last call end with the same accumulated matrix, the same success or
+failure, and on success the same current field: intermediate cell counts, intermediate failures,
+clears before the last segment leave no trace. -/
+theorem histories_same_product_agree (f : Fld) (s0 : Rotator) (h0 : init? f = .ok s0) (ops1 ops2 : List Op) (Q1 Q2 : M3)
+    (hP : Q1.mul (prodL (seg [] ops1)) = Q2.mul (prodL (seg [] ops2))) (n? : Option (List Nat)) :
+    (run s0 (ops1 ++ [.rotate Q1 n?])).rot = (run s0 (ops2 ++ [.rotate Q2 n?])).rot ∧
+    (step (run s0 ops1) (.rotate Q1 n?)).2 = (step (run s0 ops2) (.rotate Q2 n?)).2 ∧
+    ((step (run s0 ops1) (.rotate Q1 n?)).2 = none →
+      (run s0 (ops1 ++ [.rotate Q1 n?])).cur = (run s0 (ops2 ++ [.rotate Q2 n?])).cur) := by
+  obtain ⟨r1, ok1, _⟩ := history_eq_single f s0 h0 ops1 Q1 n?
+  obtain ⟨r2, ok2, _⟩ := history_eq_single f s0 h0 ops2 Q2 n?
+  obtain ⟨a1, o1⟩ := accumulated_rotation f s0 h0 ops1
+  obtain ⟨a2, o2⟩ := accumulated_rotation f s0 h0 ops2
+  refine ⟨by rw [r1, r2, hP], ?_, ?_⟩
+  · cases hres : rotateOnce f (Q1.mul (prodL (seg [] ops1))) n? with
+    | ok g =>
+      rw [step_rotate_ok _ Q1 n? g (by rw [o1, a1]; exact hres), step_rotate_ok _ Q2 n? g (by rw [o2, a2, ← hP]; exact hres)]
+    | error e =>
+      rw [step_rotate_err _ Q1 n? e (by rw [o1, a1]; exact hres), step_rotate_err _ Q2 n? e (by rw [o2, a2, ← hP]; exact hres)]
+  · intro hnone
+    cases hres : rotateOnce f (Q1.mul (prodL (seg [] ops1))) n? with
+    | ok g => rw [ok1 g hres, ok2 g (by rw [← hP]; exact hres)]
+    | error e => rw [step_rotate_err _ Q1 n? e (by rw [o1, a1]; exact hres)] at hnone; cases hnone
+
+/-- instance: two quarter turns followed by a half turn in the same plane, against no rotation at all -/
+example : (Rq 0 1 2).mul (prodL (seg [] [.rotate (Rq 0 1 1) none, .rotate (Rq 0 1 1) (some [1, 1, 1])]))
+    = M3.one.mul (prodL (seg [] [])) := by decide +kernel
+
+/-- **one Euler call = the history of its single-axis calls.** `rotate("from_euler", seq, angles)`
+with a lower-case (extrinsic) sequence of rational angles leaves the rotator — after any previous
+history — in the state that the single-axis calls, issued one after the other in the order of the
+sequence (with any intermediate `n`), leave it in: same accumulated matrix, same outcome, same
+field. -/
+theorem euler_call_eq_axis_calls (f : Fld) (s0 : Rotator) (h0 : init? f = .ok s0) (ops : List Op)
+    (seq : List (Nat × Rat × Rat)) (a : Nat) (c s : Rat) (ns : List (Option (List Nat))) (n? : Option (List Nat))
+    (hl : ns.length = seq.length) :
+    (run s0 (ops ++ [.rotate (eulerCS false (seq ++ [(a, c, s)])) n?])).rot
+      = (run s0 ((ops ++ (seq.zip ns).map fun x => Op.rotate (RaxisCS x.1.1 x.1.2.1 x.1.2.2) x.2) ++ [.rotate (RaxisCS a c s) n?])).rot ∧
+    ((step (run s0 ops) (.rotate (eulerCS false (seq ++ [(a, c, s)])) n?)).2 = none →
+      (run s0 (ops ++ [.rotate (eulerCS false (seq ++ [(a, c, s)])) n?])).cur
+        = (run s0 ((ops ++ (seq.zip ns).map fun x => Op.rotate (RaxisCS x.1.1 x.1.2.1 x.1.2.2) x.2) ++ [.rotate (RaxisCS a c s) n?])).cur) := by
+  have hseg : ∀ (cur : List M3) (l : List ((Nat × Rat × Rat) × Option (List Nat))),
+      seg cur (l.map fun x => Op.rotate (RaxisCS x.1.1 x.1.2.1 x.1.2.2) x.2) = cur ++ l.map fun x => RaxisCS x.1.1 x.1.2.1 x.1.2.2 := by
+    intro cur l
+    induction l generalizing cur with
+    | nil => simp [seg]
+    | cons x l ih => simp only [List.map_cons, seg]; rw [ih]; simp
+  have hsegapp : ∀ (cur : List M3) (a b : List Op), seg cur (a ++ b) = seg (seg cur a) b := by
+    intro cur a b
+    induction a generalizing cur with
+    | nil => rfl
+    | cons o a ih => cases o <;> simp only [List.cons_append, seg] <;> exact ih _
+  have hprodapp : ∀ (A B : List M3), prodL (A ++ B) = (prodL B).mul (prodL A) := by
+    intro A B
+    induction A with
+    | nil => simp [prodL, M3.mul_one]
+    | cons Q A ih => simp only [List.cons_append, prodL]; rw [ih, M3.mul_assoc]
+  have hzip : (seq.zip ns).map (fun x => RaxisCS x.1.1 x.1.2.1 x.1.2.2) = seq.map fun x => RaxisCS x.1 x.2.1 x.2.2 := by
+    have : (seq.zip ns).map (fun x => x.1) = seq := List.map_fst_zip (by omega)
+    conv_rhs => rw [← this]
+    rw [List.map_map]; rfl
+  have hP : (eulerCS false (seq ++ [(a, c, s)])).mul (prodL (seg [] ops))
+      = (RaxisCS a c s).mul (prodL (seg [] (ops ++ (seq.zip ns).map fun x => Op.rotate (RaxisCS x.1.1 x.1.2.1 x.1.2.2) x.2))) := by
+    rw [hsegapp, hseg, hprodapp, hzip, ← eulerCS_extrinsic_prodL, eulerCS_append]
+    simp only [Bool.false_eq_true, if_false, eulerCS, M3.one_mul]
+    rw [M3.mul_assoc]
+  obtain ⟨e1, _, e3⟩ := histories_same_product_agree f s0 h0 ops _ _ _ hP n?
+  exact ⟨e1, e3⟩
+
+/-! ## further laws of the resampling -/
+
+/-- **"the cell volume is kept mostly constant" — exactly, before rounding.** For a proper
+rotation of a well-formed field the three quantities whose cube roots `_calculate_new_n` rounds
+multiply to the cube of (volume of the new region / volume of an original cell): un-rounded, the
+new cells have exactly the old cell volume; and on each axis the un-rounded new cell edge
+`E_i / x_i` is the extent `l_i` of the rotated original cell times the common factor
+`(dV / l_0 l_1 l_2)^(1/3)` — the new cells have the aspect ratio of the bounding box of a rotated
+old cell. -/
+theorem auto_counts_keep_cell_volume (f : Fld) (hm : Mesh3 f.mesh) (R : M3) (hR : R.IsRot) (reg : Region) :
+    autoX3 f R reg 0 * autoX3 f R reg 1 * autoX3 f R reg 2
+      = cube (reg.edge 0 * reg.edge 1 * reg.edge 2 / (f.mesh.cellAt 0 * f.mesh.cellAt 1 * f.mesh.cellAt 2)) ∧
+    ∀ i, i < 3 → cube (reg.edge i) = autoX3 f R reg i * (cube (sumAbs R (cellV f.mesh) i) *
+      ((f.mesh.cellAt 0 * f.mesh.cellAt 1 * f.mesh.cellAt 2) /
+        (sumAbs R (cellV f.mesh) 0 * sumAbs R (cellV f.mesh) 1 * sumAbs R (cellV f.mesh) 2))) := by
+  obtain ⟨c0, c1, c2⟩ := cellV_pos f.mesh hm
+  apply autoX3_geometry
+  · intro i hi; exact (sumAbs_pos hR (cellV f.mesh) c0 c1 c2 i hi).ne'
+  · intro i hi; exact (cell_pos f.mesh i (hm i hi)).ne'
+
+/-- **no new extrema (scalar fields).** If every cell value of a scalar field lies in `[lo, hi]`
+with `lo ≤ 0 ≤ hi`, so does every cell value of the rotated field — for every matrix, every `n`:
+inside, the stored value is a convex combination of at most eight original cell values (all
+interpolation weights lie in `[0, 1]`), outside it is the fill value 0. -/
+theorem rot_scalar_range (f : Fld) (hf : WF f) (h1 : f.nvdim = 1) (lo hi : Rat) (hlo : lo ≤ 0) (hhi : 0 ≤ hi)
+    (hdata : ∀ i j k, i < f.mesh.nAt 0 → j < f.mesh.nAt 1 → k < f.mesh.nAt 2 →
+      lo ≤ (f.data.get [i, j, k]).getD 0 0 ∧ (f.data.get [i, j, k]).getD 0 0 ≤ hi)
+    (R : M3) (n? : Option (List Nat)) (g : Fld) (h : rotateOnce f R n? = .ok g) (idx : List Nat) :
+    lo ≤ (g.data.get idx).getD 0 0 ∧ (g.data.get idx).getD 0 0 ≤ hi := by
+  obtain ⟨ord, _, hv⟩ := rot_general f hf R n? g h
+  rw [hv idx]
+  unfold rotVal
+  rw [if_pos h1]
+  exact origAt_range f hf.1 0 (by omega) lo hi hlo hhi hdata _
+
+/-- instance: the affine example data `1 + 2x − 3y + 5z` on `[0,4]×[0,4]×[0,3]` lies in `[−12, 25]` -/
+example : ∀ i, i < exF.mesh.nAt 0 → ∀ j, j < exF.mesh.nAt 1 → ∀ k, k < exF.mesh.nAt 2 →
+    (-12 : Rat) ≤ (exF.data.get [i, j, k]).getD 0 0 ∧ (exF.data.get [i, j, k]).getD 0 0 ≤ 25 := by
+  decide +kernel
+
+/-- **superposition.** `rotate` is additive in the data: for three fields on the same mesh with the
+same component layout, the third holding cell by cell the sum of the other two, the same rotation
+with the same `n` gives three fields on the same mesh, the third again holding the sum (together
+with `rot_homogeneous` for `s = 1`, `d = 0`: `rotate` is linear in the values). -/
+theorem rot_superposition (f1 f2 f3 : Fld) (hm1 : f1.mesh = f3.mesh) (hm2 : f2.mesh = f3.mesh)
+    (hv1 : f1.nvdim = f3.nvdim) (hv2 : f2.nvdim = f3.nvdim) (hd1 : f1.vdims = f3.vdims) (hd2 : f2.vdims = f3.vdims)
+    (hp1 : f1.vmap = f3.vmap) (hp2 : f2.vmap = f3.vmap)
+    (hd : ∀ idx c, (f3.data.get idx).getD c 0 = (f1.data.get idx).getD c 0 + (f2.data.get idx).getD c 0)
+    (R : M3) (n? : Option (List Nat)) (g1 g2 g3 : Fld)
+    (h1 : rotateOnce f1 R n? = .ok g1) (h2 : rotateOnce f2 R n? = .ok g2) (h3 : rotateOnce f3 R n? = .ok g3) :
+    g1.mesh = g3.mesh ∧ g2.mesh = g3.mesh ∧
+    ∀ idx c, (g3.data.get idx).getD c 0 = (g1.data.get idx).getD c 0 + (g2.data.get idx).getD c 0 := by
+  obtain ⟨r1, m1, o1, hr1, hk1, ho1, e1⟩ := rotateOnce_ok_inv f1 R n? g1 h1
+  obtain ⟨r2, m2, o2, hr2, hk2, ho2, e2⟩ := rotateOnce_ok_inv f2 R n? g2 h2
+  obtain ⟨r3, m3, o3, hr3, hk3, ho3, e3⟩ := rotateOnce_ok_inv f3 R n? g3 h3
+  have same : ∀ (f : Fld), f.mesh = f3.mesh → f.nvdim = f3.nvdim → f.vdims = f3.vdims → f.vmap = f3.vmap →
+      newRegion f R = newRegion f3 R ∧ (∀ reg, autoN f R reg = autoN f3 R reg) ∧ ordFor f = ordFor f3 := by
+    intro f hm hv hd hp
+    refine ⟨by unfold newRegion; rw [hm], fun reg => by unfold autoN autoX3; rw [hm], ?_⟩
+    unfold ordFor ordAt rDimLast Fld.vdimIndex
+    rw [hm, hv, hd, hp]
+  obtain ⟨a1, b1, c1⟩ := same f1 hm1 hv1 hd1 hp1
+  obtain ⟨a2, b2, c2⟩ := same f2 hm2 hv2 hd2 hp2
+  rw [a1, hr3] at hr1; injection hr1 with hr1; subst hr1
+  rw [a2, hr3] at hr2; injection hr2 with hr2; subst hr2
+  rw [b1, hk3] at hk1; injection hk1 with hk1; subst hk1
+  rw [b2, hk3] at hk2; injection hk2 with hk2; subst hk2
+  rw [c1, ho3] at ho1; injection ho1 with ho1; subst ho1
+  rw [c2, ho3] at ho2; injection ho2 with ho2; subst ho2
+  subst e1 e2 e3
+  refine ⟨rfl, rfl, ?_⟩
+  intro idx c
+  rw [rotated_data, rotated_data, rotated_data]
+  have bp1 : backPos f1 R m3 idx = backPos f3 R m3 idx := by unfold backPos; rw [hm1]
+  have bp2 : backPos f2 R m3 idx = backPos f3 R m3 idx := by unfold backPos; rw [hm2]
+  rw [bp1, bp2]
+  exact valuesAt_add f1 f2 f3 hm1 hm2 hv1 hv2 hd R o3 _ c
+
+/-- instance: the example field, itself again, and twice the example field (`exDouble`) -/
+example : ∀ idx c, ((exDouble.data.get idx).getD c 0 = (exF.data.get idx).getD c 0 + (exF.data.get idx).getD c 0) := by
+  intro idx c
+  show ((exF.data.get idx).map (2 * ·)).getD c 0 = _
+  rw [getD_map_mul]; ring
+example : exDouble.mesh = exF.mesh ∧ isOk (rotateOnce exDouble exPyth none) = true ∧ isOk (rotateOnce exF exPyth none) = true :=
+  ⟨rfl, by decide +kernel, by decide +kernel⟩
+
+/-! ## a sequence of C12's lattice rotations is one FieldRotator rotation (object level) -/
+
+/-- **any sequence of `Field.rotate90` calls, in any planes, IS one rotation of the rotator.**
+Take a field FieldRotator can rotate (well-formed, complete one-to-one mapping) and apply C12's model
+of `Field.rotate90(ax1, ax2, k)` (about the centre, copying form) any number of times, each call on
+the result of the previous one, in any planes and with any integers `k` (`turns`). If all calls
+are accepted, then the ordered product `P` of the quarter-turn matrices `Rq p q k` (later calls on
+the left) is a proper lattice rotation, `rotate` with `P` and automatic cell counts is accepted,
+and its result has the same region corners, the same cell counts and the same value in EVERY cell
+as the field the sequence of lattice rotations produced — for any cell sizes, scalar and vector
+fields (all six component permutations). The same field is what a rotator shows after the history
+of single `rotate` calls with these matrices (any intermediate `n`). -/
+theorem rotate90_sequence_is_one_rotation (f : Fld) (hf : WF f) (hF : T.FldInv f) (hnd : f.mesh.region.ndim = 3)
+    (hlen : ∀ idx, (f.data.get idx).length = f.nvdim) (ord : List Nat) (ho : ordFor f = .ok ord)
+    (hkey : ∀ x ∈ f.vmap, ∀ y ∈ f.vmap, x.1 = y.1 → x = y) (hval : ∀ x ∈ f.vmap, ∀ y ∈ f.vmap, x.2 = y.2 → x = y)
+    (seq : List (String × String × Int)) (g' : Fld) (h : turns f seq = some g') :
+    (prodL (turnsM f seq)).IsRot ∧ LatM (prodL (turnsM f seq)) ∧
+    ∃ g, rotateOnce f (prodL (turnsM f seq)) none = .ok g ∧
+      (∀ a, a < 3 → g.mesh.region.lo a = g'.mesh.region.lo a ∧ g.mesh.region.hi a = g'.mesh.region.hi a) ∧
+      g.mesh.n = g'.mesh.n ∧
+      (∀ i0 i1 i2, i0 < g'.mesh.nAt 0 → i1 < g'.mesh.nAt 1 → i2 < g'.mesh.nAt 2 →
+        g.data.get [i0, i1, i2] = g'.data.get [i0, i1, i2]) ∧
+      (∀ s0, init? f = .ok s0 → ∀ (init : List M3) (Q : M3) (ns : List (Option (List Nat))), ns.length = init.length →
+        turnsM f seq = init ++ [Q] →
+        (run s0 ((init.zip ns).map (fun x => Op.rotate x.1 x.2) ++ [.rotate Q none])).cur = g) := by
+  obtain ⟨hr, hl, g, hg, a1, a2, a3⟩ := turns_match_rotator f ord ⟨hf, hF, hnd, hlen, ho, hkey, hval⟩ seq g' h
+  refine ⟨hr, hl, g, hg, a1, a2, a3, ?_⟩
+  intro s0 h0 init Q ns hns hsplit
+  have hseg : ∀ (cur : List M3) (l : List (M3 × Option (List Nat))),
+      seg cur (l.map fun x => Op.rotate x.1 x.2) = cur ++ l.map fun x => x.1 := by
+    intro cur l
+    induction l generalizing cur with
+    | nil => simp [seg]
+    | cons x l ih => simp only [List.map_cons, seg]; rw [ih]; simp
+  obtain ⟨_, hok, _⟩ := history_eq_single f s0 h0 ((init.zip ns).map fun x => Op.rotate x.1 x.2) Q none
+  apply hok
+  rw [hseg, List.nil_append, List.map_fst_zip (by omega), ← prodL_append, ← hsplit]
+  exact hg
+
+/-- non-vacuity: the anisotropic vector example (mapping `p ↦ y, q ↦ x, r ↦ z`) turned by C12's
+model three times in three different planes (one of them by `−1`, one by `2`) -/
+example : (turns exV [("x", "y", 1), ("y", "z", -1), ("z", "x", 2)]).isSome = true ∧
+    turnsM exV [("x", "y", 1), ("y", "z", -1), ("z", "x", 2)] = [Rq 0 1 1, Rq 1 2 (-1), Rq 2 0 2] := by
+  decide +kernel
 
 end DFV.C18
